@@ -1,31 +1,20 @@
-//! C01/C06/C15 code -> spec driver: seeded random histories of block arrivals, scans of arbitrary
-//! ranges in arbitrary order (with repeats), chain-tip updates, rewinds with and without a
-//! different continuation of the chain, against the real SQLite wallet. One ndjson event per
-//! operation, logged after the call returned, with the projection of the wallet state.
+//! C01/C06/C15 code -> spec driver: histories of block arrivals, scans of arbitrary ranges in
+//! arbitrary order (with repeats), chain-tip updates, rewinds with and without a different
+//! continuation of the chain, against the real SQLite wallet. One ndjson event per operation,
+//! logged after the call returned, with the projection of the wallet state.
 //!
-//! usage: c01_driver <out.ndjson> <histories> <ops-per-history> [ironwood]
-use h_wallet::chain::{Chain, OutReq, Pool, TxReq};
+//! usage: c01_driver <out.ndjson> <histories> <ops-per-history> [ironwood]     seeded random histories
+//!        c01_driver <out.ndjson> scenarios                                     the scenario library
+//! (scenarios: orderings the specification's safeguards exist for — spend scanned before its
+//! receipt across 99..102-block gaps, batches longer than the nullifier retention, rewinds across
+//! spends, orphan expiry at exactly 40 blocks)
+use h_wallet::chain::{AbsTx, Chain, OutReq, Pool, TxReq};
 use h_wallet::util::{NdjsonWriter, quiet_panics, seed_from_env};
 use h_wallet::wallet::W;
 use rand::{Rng, SeedableRng, seq::SliceRandom};
 use rand_chacha::ChaChaRng;
 use serde_json::{Value, json};
-
-fn block_event(chain: &Chain, w: &W, h: u32) -> Value {
-    let b = &chain.blocks[&h];
-    let txs: Vec<Value> = b
-        .txs
-        .iter()
-        .map(|t| {
-            json!({
-                "t": t.uid,
-                "outs": t.outs.iter().map(|o| json!({"n": o.note, "pool": o.pool.code(), "v": o.value, "acct": o.acct})).collect::<Vec<_>>(),
-                "spends": t.spends,
-            })
-        })
-        .collect();
-    json!({"a": "block", "h": w.rel(h), "b": b.uid, "txs": txs})
-}
+use zcash_client_backend::proto::compact_formats::CompactTx;
 
 fn res_class<T>(r: &Result<Result<T, String>, String>) -> (&'static str, String) {
     match r {
@@ -35,12 +24,161 @@ fn res_class<T>(r: &Result<Result<T, String>, String>) -> (&'static str, String)
     }
 }
 
-struct Gen {
+struct Run<'a> {
+    w: W,
+    chain: Chain,
+    out: &'a mut NdjsonWriter,
     rng: ChaChaRng,
+    ironwood: bool,
     next_value: u64,
+    aborted: bool,
+    orphaned: Vec<(AbsTx, CompactTx)>,
 }
 
-impl Gen {
+impl<'a> Run<'a> {
+    fn new(out: &'a mut NdjsonWriter, seed: u64, ironwood: bool, label: Value) -> Self {
+        let mut rng = ChaChaRng::seed_from_u64(seed);
+        let (w, keys) = W::new(ironwood);
+        let chain = Chain::new(w.base, keys, &mut rng, ironwood);
+        let r = Run { w, chain, out, rng, ironwood, next_value: 0, aborted: false, orphaned: vec![] };
+        let post = r.w.project(&r.chain);
+        r.out.emit(&json!({"a": "reset", "hist": label, "ironwood": ironwood, "post": post}));
+        r
+    }
+
+    fn abs(&self, rel: u32) -> u32 {
+        self.chain.base + rel
+    }
+
+    fn block_event(&self, h: u32) -> Value {
+        let b = &self.chain.blocks[&h];
+        let txs: Vec<Value> = b
+            .txs
+            .iter()
+            .map(|t| {
+                json!({
+                    "t": t.uid,
+                    "outs": t.outs.iter().map(|o| json!({"n": o.note, "pool": o.pool.code(), "v": o.value, "acct": o.acct})).collect::<Vec<_>>(),
+                    "spends": t.spends,
+                })
+            })
+            .collect();
+        json!({"a": "block", "h": self.w.rel(h), "b": b.uid, "txs": txs})
+    }
+
+    fn block(&mut self, txs: &[TxReq], remined: &[(AbsTx, CompactTx)], check: bool) -> u32 {
+        let h = self.chain.extend_with(&self.w.net, txs, remined, &mut self.rng);
+        let mut ev = self.block_event(h);
+        ev["post"] = if check { self.w.project(&self.chain) } else { json!({"chk": false}) };
+        self.out.emit(&ev);
+        h
+    }
+
+    fn empties(&mut self, k: u32) {
+        for i in 0..k {
+            self.block(&[], &[], i + 1 == k);
+        }
+    }
+
+    /// one transaction paying the wallet; returns the note id
+    fn recv(&mut self, pool: Pool, value: u64, internal: bool) -> u32 {
+        let n = self.chain.next_note;
+        self.block(&[TxReq { outs: vec![OutReq { pool, acct: 1, internal, diversified: false, value }], spends: vec![], foreign_spends: vec![] }], &[], true);
+        n
+    }
+
+    /// one transaction spending `note`, with `change` back to the wallet (0: none)
+    fn spend(&mut self, note: u32, change: u64, change_pool: Pool) {
+        let total = self.chain.notes[&note].value;
+        let mut outs = vec![OutReq { pool: change_pool, acct: 0, internal: false, diversified: false, value: total - change }];
+        if change > 0 {
+            outs.push(OutReq { pool: change_pool, acct: 1, internal: change_pool != Pool::Sapling, diversified: false, value: change });
+        }
+        self.block(&[TxReq { outs, spends: vec![note], foreign_spends: vec![] }], &[], true);
+    }
+
+    fn tip(&mut self, h: u32) {
+        let res = self.w.update_tip(h);
+        let (c, e) = res_class(&res);
+        let post = self.w.project(&self.chain);
+        self.out.emit(&json!({"a": "tip", "h": self.w.rel(h), "res": c, "err": e, "post": post}));
+        self.aborted |= c == "panic";
+    }
+
+    fn tip_top(&mut self) {
+        self.tip(self.chain.top());
+    }
+
+    /// returns whether the scan succeeded
+    fn scan(&mut self, from: u32, limit: usize) -> bool {
+        let res = self.w.scan(&self.chain, from, limit);
+        let (c, e) = res_class(&res);
+        let post = self.w.project(&self.chain);
+        self.out.emit(&json!({"a": "scan", "from": self.w.rel(from), "n": limit, "res": c, "err": e, "post": post}));
+        self.aborted |= c == "panic";
+        c == "ok"
+    }
+
+    /// rewind; `fork`: the chain above the height the wallet settled on is then replaced
+    fn trunc(&mut self, req: u32, fork: bool) -> Option<u32> {
+        let res = self.w.truncate(req);
+        let (c, e) = res_class(&res);
+        let to_abs = match &res { Ok(Ok(h)) => Some(*h), _ => None };
+        let fork = fork && to_abs.is_some();
+        if fork {
+            let to_abs = to_abs.unwrap();
+            // remember pure-receipt transactions of the orphaned blocks: they may be mined again
+            for (_, b) in self.chain.blocks.range(to_abs + 1..) {
+                for (i, t) in b.txs.iter().enumerate() {
+                    if t.spends.is_empty() && t.outs.iter().any(|o| o.note > 0) && self.orphaned.len() < 4 {
+                        self.orphaned.push((t.clone(), b.cb.vtx[i].clone()));
+                    }
+                }
+            }
+            self.chain.truncate(to_abs);
+        }
+        let post = self.w.project(&self.chain);
+        self.out.emit(&json!({"a": "trunc", "req": self.w.rel(req), "res": c, "err": e,
+                              "to": to_abs.map(|h| self.w.rel(h)).unwrap_or(-1), "fork": fork, "post": post}));
+        self.aborted |= c == "panic";
+        to_abs
+    }
+
+    fn scanned(&self) -> Vec<i64> {
+        self.w.project(&self.chain)["blocks"].as_array().unwrap().iter().map(|v| v.as_i64().unwrap()).collect()
+    }
+
+    /// catch up completely, then compare with a fresh wallet that scans the chain once, in order
+    fn catch_up_and_fresh(&mut self) {
+        let top = self.chain.top();
+        if top == self.chain.base {
+            return;
+        }
+        self.tip(top);
+        let mut ok = !self.aborted;
+        while ok {
+            let scanned = self.scanned();
+            let Some(from) = (self.chain.base + 1..=top).find(|h| !scanned.contains(&self.w.rel(*h))) else { break };
+            let run = (from..=top).take_while(|h| !scanned.contains(&self.w.rel(*h))).count();
+            let limit = run.min(self.rng.gen_range(1..300));
+            ok = self.scan(from, limit);
+        }
+        if ok {
+            let (mut fresh, _) = W::new(self.ironwood);
+            let r1 = fresh.update_tip(top);
+            let r2 = fresh.scan(&self.chain, self.chain.base + 1, (top - self.chain.base) as usize);
+            if matches!(r1, Ok(Ok(_))) && matches!(r2, Ok(Ok(_))) {
+                let p = fresh.project(&self.chain);
+                self.out.emit(&json!({"a": "fresh", "notes": p["notes"], "bal": p["bal"], "balp": p["balp"], "blocks": p["blocks"]}));
+            } else {
+                self.out.emit(&json!({"a": "freshfail", "r1": format!("{r1:?}"), "r2": format!("{r2:?}")}));
+            }
+        }
+    }
+
+    // ---------------------------------------------------------------------------------------
+    // random histories
+
     fn value(&mut self) -> u64 {
         // mostly economic, sometimes around the dust boundary (MARGINAL_FEE = 5000)
         self.next_value += 1;
@@ -52,14 +190,18 @@ impl Gen {
         }
     }
 
-    fn tx(&mut self, chain: &Chain, pools: &[Pool], taken: &mut Vec<u32>) -> TxReq {
+    fn pools(&self) -> Vec<Pool> {
+        if self.ironwood { vec![Pool::Sapling, Pool::Orchard, Pool::Ironwood] } else { vec![Pool::Sapling, Pool::Orchard] }
+    }
+
+    fn random_tx(&mut self, taken: &mut Vec<u32>) -> TxReq {
+        let pools = self.pools();
         let mut outs = vec![];
         let mut spends = vec![];
         let mut foreign_spends = vec![];
-        let spendable: Vec<u32> = chain.spendable().into_iter().filter(|n| !taken.contains(n)).collect();
+        let spendable: Vec<u32> = self.chain.spendable().into_iter().filter(|n| !taken.contains(n)).collect();
         let kind = self.rng.gen_range(0..10);
         if kind < 4 || spendable.is_empty() {
-            // plain receipt(s), possibly with foreign traffic
             for _ in 0..self.rng.gen_range(1..=2) {
                 let pool = *pools.choose(&mut self.rng).unwrap();
                 let foreign = self.rng.gen_bool(0.25);
@@ -75,16 +217,15 @@ impl Gen {
                 foreign_spends.push(*pools.choose(&mut self.rng).unwrap());
             }
         } else {
-            // spend one (sometimes two) wallet notes; change back to the wallet in some pool, or all of it leaves
             let n = *spendable.choose(&mut self.rng).unwrap();
             spends.push(n);
             taken.push(n);
-            let mut total = chain.notes[&n].value;
+            let mut total = self.chain.notes[&n].value;
             if self.rng.gen_bool(0.2) {
                 if let Some(m) = spendable.iter().find(|m| **m != n) {
                     spends.push(*m);
                     taken.push(*m);
-                    total += chain.notes[m].value;
+                    total += self.chain.notes[m].value;
                 }
             }
             let pool = *pools.choose(&mut self.rng).unwrap();
@@ -100,135 +241,192 @@ impl Gen {
         }
         TxReq { outs, spends, foreign_spends }
     }
+
+    fn random_history(&mut self, ops: usize) {
+        let long_gaps = self.rng.gen_bool(0.35);
+        // some histories only rewind to the start of the most recent scan batch or above (no C06 taint)
+        let gentle_rewinds = self.rng.gen_bool(0.5);
+        let mut last_from = self.chain.base + 1;
+        for op_i in 0..=ops {
+            if self.aborted {
+                break;
+            }
+            let top = self.chain.top();
+            if top > self.chain.base && (op_i == ops || self.rng.gen_range(0..100) < 3) {
+                self.catch_up_and_fresh();
+                if op_i == ops {
+                    break;
+                }
+                continue;
+            }
+            let r = self.rng.gen_range(0..100);
+            if r < 30 || top == self.chain.base {
+                let ntx = match self.rng.gen_range(0..10) { 0..=1 => 0, 2..=7 => 1, _ => 2 };
+                let mut taken = vec![];
+                let txs: Vec<TxReq> = (0..ntx).map(|_| self.random_tx(&mut taken)).collect();
+                let remined = if !self.orphaned.is_empty() && self.rng.gen_bool(0.3) { vec![self.orphaned.remove(0)] } else { vec![] };
+                self.block(&txs, &remined, true);
+            } else if r < 38 {
+                let k = if long_gaps { *[3u32, 39, 40, 41, 99, 100, 101].choose(&mut self.rng).unwrap() } else { self.rng.gen_range(1..6) };
+                self.empties(k);
+            } else if r < 48 {
+                let h = if self.rng.gen_bool(0.7) { top } else { self.rng.gen_range(self.chain.base + 1..=top) };
+                self.tip(h);
+            } else if r < 88 {
+                let from = if self.rng.gen_bool(0.5) {
+                    let scanned = self.scanned();
+                    (self.chain.base + 1..=top).find(|h| !scanned.contains(&self.w.rel(*h))).unwrap_or(self.rng.gen_range(self.chain.base + 1..=top))
+                } else {
+                    self.rng.gen_range(self.chain.base + 1..=top)
+                };
+                let limit = match self.rng.gen_range(0..10) { 0..=3 => 1, 4..=6 => self.rng.gen_range(2..5), 7..=8 => self.rng.gen_range(5..30), _ => 250 };
+                // documented client protocol: the wallet learns the tip before scanning above it
+                let last = (from + limit as u32 - 1).min(top);
+                if self.w.tip().map(|t| t < last).unwrap_or(true) {
+                    self.tip(top);
+                }
+                if self.scan(from, limit) {
+                    last_from = last_from.max(from);
+                }
+            } else {
+                let req = if gentle_rewinds {
+                    let lo = last_from.saturating_sub(1).max(self.chain.base + 1).min(top);
+                    self.rng.gen_range(lo..=top)
+                } else if self.rng.gen_bool(0.6) {
+                    top.saturating_sub(self.rng.gen_range(0..6)).max(self.chain.base + 1)
+                } else {
+                    self.rng.gen_range(self.chain.base + 1..=top)
+                };
+                let fork = self.rng.gen_bool(0.7);
+                if let Some(to) = self.trunc(req, fork) {
+                    last_from = last_from.min(to + 1);
+                }
+            }
+        }
+    }
+}
+
+// -------------------------------------------------------------------------------------------
+// scenario library (DESIGN §1.4): each is one history
+
+fn scenarios(out: &mut NdjsonWriter) {
+    let mut id = 0;
+    // A: a spend scanned before its receipt, separated by k blocks; the receipt block is scanned last
+    for &k in &[1u32, 98, 99, 100, 101, 102, 160] {
+        for &pool in &[Pool::Sapling, Pool::Orchard] {
+            for variant in 0..2 {
+                id += 1;
+                let mut r = Run::new(out, 1000 + id, false, json!(format!("A k={k} {} v{variant}", pool.code())));
+                let n = r.recv(pool, 60_000, false);
+                r.empties(k);
+                r.spend(n, 20_000, pool);
+                r.empties(if variant == 0 { 2 } else { 140 });
+                r.tip_top();
+                if variant == 0 {
+                    // everything but the receipt block in one batch, then the receipt
+                    r.scan(r.abs(2), 500);
+                } else {
+                    // the spend block alone, then blocks far ahead of it, then the stretch in between
+                    r.scan(r.abs(k + 2), 1);
+                    r.scan(r.abs(k + 2 + 105), 30);
+                    r.scan(r.abs(2), k as usize);
+                }
+                r.scan(r.abs(1), 1);
+                r.catch_up_and_fresh();
+            }
+        }
+    }
+    // A': as A, but a block below the receipt is scanned first (so a fully-scanned height exists) and
+    // the spend lies more than the nullifier retention below the end of the batch that contains it
+    for &k in &[1u32, 60, 101] {
+        for &pool in &[Pool::Sapling, Pool::Orchard] {
+            id += 1;
+            let mut r = Run::new(out, 1500 + id, false, json!(format!("A' k={k} {}", pool.code())));
+            r.empties(1);
+            r.tip_top();
+            r.scan(r.abs(1), 1);
+            let n = r.recv(pool, 60_000, false);
+            r.empties(k);
+            r.spend(n, 20_000, pool);
+            r.empties(130);
+            r.tip_top();
+            r.scan(r.abs(3), 1000);
+            r.scan(r.abs(2), 1);
+            r.catch_up_and_fresh();
+        }
+    }
+    // B: one batch longer than the nullifier retention that extends the fully-scanned frontier and
+    // holds receipt and spend on either side of the tracking floor
+    for &(a, b, c) in &[(5u32, 5u32, 150u32), (5, 120, 30), (90, 5, 20), (1, 99, 1), (1, 100, 1), (1, 101, 1)] {
+        for &pool in &[Pool::Sapling, Pool::Orchard] {
+            id += 1;
+            let mut r = Run::new(out, 2000 + id, false, json!(format!("B {a},{b},{c} {}", pool.code())));
+            let n0 = r.recv(pool, 50_000, false);
+            r.tip_top();
+            r.scan(r.abs(1), 1);
+            r.empties(a);
+            let n1 = r.recv(pool, 70_000, false);
+            r.empties(b);
+            r.spend(n1, 0, pool);
+            r.empties(c);
+            r.spend(n0, 10_000, pool);
+            r.tip_top();
+            r.scan(r.abs(2), 1000);
+            r.catch_up_and_fresh();
+        }
+    }
+    // C: a rewind across a spend whose link already exists; the orphaned spender keeps the note spent
+    // until it expires, 40 blocks after it was observed; the tip is advanced block by block
+    for &pool in &[Pool::Sapling, Pool::Orchard] {
+        id += 1;
+        let mut r = Run::new(out, 3000 + id, false, json!(format!("C {}", pool.code())));
+        let n = r.recv(pool, 80_000, false);
+        r.spend(n, 30_000, pool);
+        r.empties(2);
+        r.tip_top();
+        r.scan(r.abs(1), 10);
+        r.trunc(r.abs(1), true);
+        for _ in 0..45 {
+            r.empties(1);
+            r.tip_top();
+        }
+        r.catch_up_and_fresh();
+    }
+    // D: an orphaned receipt stops counting exactly 40 blocks after it was observed; then it is mined again
+    for &pool in &[Pool::Sapling, Pool::Orchard] {
+        id += 1;
+        let mut r = Run::new(out, 4000 + id, false, json!(format!("D {}", pool.code())));
+        r.recv(pool, 11_000, false);
+        r.recv(pool, 90_000, false);
+        r.tip_top();
+        r.scan(r.abs(1), 10);
+        r.trunc(r.abs(1), true);
+        for _ in 0..43 {
+            r.empties(1);
+            r.tip_top();
+        }
+        if !r.orphaned.is_empty() {
+            let remined = vec![r.orphaned.remove(0)];
+            r.block(&[], &remined, true);
+        }
+        r.catch_up_and_fresh();
+    }
 }
 
 fn main() {
     quiet_panics();
     let args: Vec<String> = std::env::args().collect();
     let mut out = NdjsonWriter::create(&args[1]);
-    let histories: usize = args[2].parse().unwrap();
-    let ops: usize = args[3].parse().unwrap();
-    let ironwood = args.get(4).map(|s| s == "ironwood").unwrap_or(false);
-    let seed = seed_from_env();
-
-    for hist in 0..histories {
-        let mut g = Gen { rng: ChaChaRng::seed_from_u64(seed.wrapping_mul(1_000_003).wrapping_add(hist as u64)), next_value: 0 };
-        let (mut w, keys) = W::new(ironwood);
-        let mut chain = Chain::new(w.base, keys, &mut g.rng, ironwood);
-        let pools: Vec<Pool> = if ironwood { vec![Pool::Sapling, Pool::Orchard, Pool::Ironwood] } else { vec![Pool::Sapling, Pool::Orchard] };
-        // profile of this history: how long the empty stretches are
-        let long_gaps = g.rng.gen_bool(0.35);
-        out.emit(&json!({"a": "reset", "hist": hist, "ironwood": ironwood, "post": w.project(&chain)}));
-        let mut orphaned: Vec<(h_wallet::chain::AbsTx, zcash_client_backend::proto::compact_formats::CompactTx)> = vec![];
-        let mut aborted = false;
-
-        for op_i in 0..=ops {
-            if aborted {
-                break;
-            }
-            let top = chain.top();
-            if top > chain.base && (op_i == ops || g.rng.gen_range(0..100) < 3) {
-                // ---- catch up completely, then compare with a fresh wallet that scans the chain once, in order
-                let res = w.update_tip(top);
-                let (c, e) = res_class(&res);
-                out.emit(&json!({"a": "tip", "h": w.rel(top), "res": c, "err": e, "post": w.project(&chain)}));
-                let mut ok = c == "ok";
-                while ok {
-                    let scanned: Vec<i64> = w.project(&chain)["blocks"].as_array().unwrap().iter().map(|v| v.as_i64().unwrap()).collect();
-                    let Some(from) = (chain.base + 1..=top).find(|h| !scanned.contains(&w.rel(*h))) else { break };
-                    let limit = (from..=top).take_while(|h| !scanned.contains(&w.rel(*h))).count().min(g.rng.gen_range(1..60));
-                    let res = w.scan(&chain, from, limit);
-                    let (c, e) = res_class(&res);
-                    out.emit(&json!({"a": "scan", "from": w.rel(from), "n": limit, "res": c, "err": e, "post": w.project(&chain)}));
-                    ok = c == "ok";
-                    aborted = c == "panic";
-                }
-                if ok {
-                    let (mut fresh, _) = W::new(ironwood);
-                    let r1 = fresh.update_tip(top);
-                    let r2 = fresh.scan(&chain, chain.base + 1, (top - chain.base) as usize);
-                    if matches!(r1, Ok(Ok(_))) && matches!(r2, Ok(Ok(_))) {
-                        let p = fresh.project(&chain);
-                        out.emit(&json!({"a": "fresh", "notes": p["notes"], "bal": p["bal"], "balp": p["balp"], "blocks": p["blocks"]}));
-                    } else {
-                        out.emit(&json!({"a": "freshfail", "r1": format!("{r1:?}"), "r2": format!("{r2:?}")}));
-                    }
-                }
-                if op_i == ops {
-                    break;
-                }
-                continue;
-            }
-            let r = g.rng.gen_range(0..100);
-            if r < 30 || top == chain.base {
-                // ---- a block arrives
-                let ntx = match g.rng.gen_range(0..10) { 0..=1 => 0, 2..=7 => 1, _ => 2 };
-                let mut taken = vec![];
-                let txs: Vec<TxReq> = (0..ntx).map(|_| g.tx(&chain, &pools, &mut taken)).collect();
-                let remined = if !orphaned.is_empty() && g.rng.gen_bool(0.3) { vec![orphaned.remove(0)] } else { vec![] };
-                let h = chain.extend_with(&w.net, &txs, &remined, &mut g.rng);
-                let mut ev = block_event(&chain, &w, h);
-                ev["post"] = w.project(&chain);
-                out.emit(&ev);
-            } else if r < 38 {
-                // ---- a stretch of empty blocks
-                let k = if long_gaps { *[3u32, 39, 40, 41, 99, 100, 101].choose(&mut g.rng).unwrap() } else { g.rng.gen_range(1..6) };
-                for _ in 0..k {
-                    let h = chain.extend(&w.net, &[], &mut g.rng);
-                    let mut ev = block_event(&chain, &w, h);
-                    ev["post"] = json!({"chk": false});
-                    out.emit(&ev);
-                }
-            } else if r < 48 {
-                // ---- chain tip update (to the top, or somewhere below it)
-                let h = if g.rng.gen_bool(0.7) { top } else { g.rng.gen_range(chain.base + 1..=top) };
-                let res = w.update_tip(h);
-                let (c, e) = res_class(&res);
-                out.emit(&json!({"a": "tip", "h": w.rel(h), "res": c, "err": e, "post": w.project(&chain)}));
-                aborted = c == "panic";
-            } else if r < 88 {
-                // ---- scan a range: anywhere, any size, repeats included
-                let from = if g.rng.gen_bool(0.5) {
-                    // lowest unscanned height, or a random one
-                    let scanned: Vec<i64> = w.project(&chain)["blocks"].as_array().unwrap().iter().map(|v| v.as_i64().unwrap()).collect();
-                    (chain.base + 1..=top).find(|h| !scanned.contains(&w.rel(*h))).unwrap_or(g.rng.gen_range(chain.base + 1..=top))
-                } else {
-                    g.rng.gen_range(chain.base + 1..=top)
-                };
-                let limit = match g.rng.gen_range(0..10) { 0..=3 => 1, 4..=6 => g.rng.gen_range(2..5), 7..=8 => g.rng.gen_range(5..30), _ => 250 };
-                // documented client protocol: the wallet learns the tip before scanning above it
-                let last = (from + limit as u32 - 1).min(top);
-                if w.tip().map(|t| t < last).unwrap_or(true) {
-                    let res = w.update_tip(top);
-                    let (c, e) = res_class(&res);
-                    out.emit(&json!({"a": "tip", "h": w.rel(top), "res": c, "err": e, "post": w.project(&chain)}));
-                }
-                let res = w.scan(&chain, from, limit);
-                let (c, e) = res_class(&res);
-                out.emit(&json!({"a": "scan", "from": w.rel(from), "n": limit, "res": c, "err": e, "post": w.project(&chain)}));
-                aborted = c == "panic";
-            } else {
-                // ---- rewind, possibly followed by a different continuation of the chain
-                let req = if g.rng.gen_bool(0.6) { top.saturating_sub(g.rng.gen_range(0..6)).max(chain.base + 1) } else { g.rng.gen_range(chain.base + 1..=top) };
-                let res = w.truncate(req);
-                let (c, e) = res_class(&res);
-                let to = match &res { Ok(Ok(h)) => w.rel(*h), _ => -1 };
-                let fork = c == "ok" && g.rng.gen_bool(0.7);
-                if fork {
-                    let to_abs = *res.as_ref().unwrap().as_ref().unwrap();
-                    // remember pure-receipt transactions of the orphaned blocks: they may be mined again
-                    for (_, b) in chain.blocks.range(to_abs + 1..) {
-                        for (i, t) in b.txs.iter().enumerate() {
-                            if t.spends.is_empty() && t.outs.iter().any(|o| o.note > 0) && orphaned.len() < 4 {
-                                orphaned.push((t.clone(), b.cb.vtx[i].clone()));
-                            }
-                        }
-                    }
-                    chain.truncate(to_abs);
-                }
-                out.emit(&json!({"a": "trunc", "req": w.rel(req), "res": c, "err": e, "to": to, "fork": fork, "post": w.project(&chain)}));
-                aborted = c == "panic";
-            }
+    if args[2] == "scenarios" {
+        scenarios(&mut out);
+    } else {
+        let histories: usize = args[2].parse().unwrap();
+        let ops: usize = args[3].parse().unwrap();
+        let ironwood = args.get(4).map(|s| s == "ironwood").unwrap_or(false);
+        let seed = seed_from_env();
+        for hist in 0..histories {
+            let mut r = Run::new(&mut out, seed.wrapping_mul(1_000_003).wrapping_add(hist as u64), ironwood, json!(hist));
+            r.random_history(ops);
         }
     }
     let n = out.finish();
